@@ -479,7 +479,7 @@ impl SimDriver {
                             1 => Outcome::OwnDisconnect(*ch.pick(&[0x00u8, 0x80, 0x98])),
                             _ => Outcome::Err,
                         },
-                        GateKind::Handshake => Outcome::Ok,
+                        GateKind::Handshake | GateKind::Shutdown => Outcome::Ok,
                     }
                 };
                 self.w.gate_open(g, outcome);
